@@ -5,6 +5,12 @@
 //! MODF, and a BfA map with the MAID FileDataID table (8 sections of 64x64 ids). Chunk tags are
 //! stored reversed on disk ("REVM"). `WdtReader::new` takes a version hint; the seed's own version
 //! is passed through `Aux::Names` and WotLK is always tried as well.
+//!
+//! Two byte-level additions the writer cannot produce: "classic-terrain" ends with a chunk of an
+//! unknown tag (the reader skips it), and the MWMO chunk of "classic-wmo-nomodf" has lost the NUL
+//! behind its last name (the reader takes the unterminated rest as a name). The "tbc-*" and
+//! "classic-wmo-nomodf" seeds exist for the arms of the reader's version detection (MPHD flag
+//! ranges, WMO-only map without MODF).
 use crate::seed::{add_chunk_seq, Aux, Seed};
 use crate::worker::{errname, Runner};
 use std::io::Cursor;
@@ -21,13 +27,17 @@ pub fn seed_names(thorough: bool) -> Vec<String> {
         v.push("wotlk-terrain".into());
         v.push("cata-terrain".into());
         v.push("mop-wmo-only".into());
+        v.push("tbc-terrain".into());
+        v.push("tbc-wmo-only".into());
+        v.push("classic-wmo-nomodf".into());
     }
     v
 }
 
 fn version_of(name: &str) -> WowVersion {
     match name {
-        "classic-terrain" => WowVersion::Classic,
+        "classic-terrain" | "classic-wmo-nomodf" => WowVersion::Classic,
+        "tbc-terrain" | "tbc-wmo-only" => WowVersion::TBC,
         "wotlk-terrain" | "wotlk-wmo-only" => WowVersion::WotLK,
         "cata-terrain" => WowVersion::Cataclysm,
         "mop-wmo-only" => WowVersion::MoP,
@@ -75,17 +85,24 @@ fn modf_entry(ver: WowVersion) -> ModfEntry {
 pub fn build(name: &str) -> Seed {
     let ver = version_of(name);
     let mut w = WdtFile::new(ver);
-    let wmo_only = name.ends_with("wmo-only");
+    let wmo_only = name.contains("-wmo-");
     if wmo_only {
         w.mphd.flags |= MphdFlags::WDT_USES_GLOBAL_MAP_OBJ;
         let mut m = MwmoChunk::new();
         m.add_filename("World\\wmo\\Dungeon\\KL_Instance\\KL_Instance.wmo".to_string());
         w.mwmo = Some(m);
-        let mut f = ModfChunk::new();
-        f.add_entry(modf_entry(ver));
-        w.modf = Some(f);
+        if name != "classic-wmo-nomodf" {
+            // (without MODF the reader's version detection falls back to the version hint)
+            let mut f = ModfChunk::new();
+            f.add_entry(modf_entry(ver));
+            w.modf = Some(f);
+        }
         if ver >= WowVersion::Cataclysm {
             w.mphd.flags |= MphdFlags::UNK_FIRELANDS;
+        }
+        if name == "tbc-wmo-only" {
+            // flags word 3: above 1 and not above 0xF, which the detection takes for TBC
+            w.mphd.flags |= MphdFlags::ADT_HAS_MCCV;
         }
     } else {
         for (k, &(x, y)) in TILES.iter().enumerate() {
@@ -98,6 +115,11 @@ pub fn build(name: &str) -> Seed {
         }
         match ver {
             WowVersion::Classic => {
+                w.mwmo = Some(MwmoChunk::new());
+            }
+            WowVersion::TBC => {
+                // flags word 0x10: above 1 with none of 0x2 / 0x4 / 0x8, terrain map with (empty) MWMO: TBC
+                w.mphd.flags |= MphdFlags::ADT_HAS_LIGHTING_VERTICES;
                 w.mwmo = Some(MwmoChunk::new());
             }
             WowVersion::WotLK => {
@@ -122,6 +144,21 @@ pub fn build(name: &str) -> Seed {
     }
     let mut out = Vec::new();
     WdtWriter::new(&mut out).write(&w).expect("WdtWriter::write");
+    if name == "classic-terrain" {
+        // hand-assembled: the writer only emits the chunks it knows
+        out.extend_from_slice(b"TSTX"); // 'XTST' reversed
+        out.extend_from_slice(&12u32.to_le_bytes());
+        out.extend_from_slice(&[0x11, 0x22, 0x33, 0x44, 0x55, 0x66, 0x77, 0x88, 0x99, 0xAA, 0xBB, 0xCC]);
+    }
+    if name == "classic-wmo-nomodf" {
+        // byte patch: the writer terminates every MWMO name; drop the last NUL (MWMO is the last chunk here)
+        let ch = crate::seed::walk_chunks(&out, 0, out.len());
+        let &(o, tot) = ch.last().expect("chunks");
+        assert!(&out[o..o + 4] == b"OMWM" && o + tot == out.len() && out[out.len() - 1] == 0, "MWMO is not the last chunk");
+        let sz = (tot - 8 - 1) as u32;
+        out[o + 4..o + 8].copy_from_slice(&sz.to_le_bytes());
+        out.pop();
+    }
     let len = out.len();
     let mut s = Seed::new("wdt", name, out);
     s.aux = Aux::Names(vec![vname(ver).to_string()]);
@@ -159,7 +196,7 @@ pub fn build(name: &str) -> Seed {
         }
     }
     if let Some((o, tot)) = find("MWMO") {
-        if tot > 8 {
+        if tot > 8 && s.bytes[o + tot - 1] == 0 {
             s.field_ex(o + tot - 1, 1, "term", "MWMO.last_nul", o + tot, 1, None);
         }
     }
